@@ -30,7 +30,7 @@ GOODBYE = 125  # ms between goodbyes      (English statement)
 T0 = 10_000
 
 HOSTS = [("hosta.local.", ["0a000001"], []), ("hostb.local.", ["0a000002"], ["fe80000000000000000000000000000b"]),
-         ("HostA.Local.", ["0a000001"], [])]
+         ("HostA.Local.", ["0a000001"], []), ("hostd.local.", [], ["fe80000000000000000000000000000d"])]
 TYPES = ["_http._tcp.local.", "_x._udp.local."]
 OFFS = [-200, -1, 0, 1, 5, 19, 20, 21, 60, 119, 120, 121, 250, 375, 499, 500, 501, 620, 800, 999, 1000, 1001, 1119, 1120, 1121, 1200, 1300]
 
@@ -50,13 +50,36 @@ def gen_overlap(rng, idx):
     return {"idx": idx, "svcs": svcs, "ops": ops, "seed": rng.randrange(1 << 30), "delays": [0] * 60, "draws": [rng.choice([20, 60, 120]) for _ in range(6)]}
 
 
+def gen_nsec(rng, idx):
+    """a host with one address family whose name is not shared: a multi-question A/AAAA query is answered by the NSEC record as
+    an aggregated *answer*; it is still queued (second group holds the queue until +500 ms, or flood-delayed by 1 s) when the
+    service is unregistered"""
+    h = rng.choice([HOSTS[0], HOSTS[3]])
+    svcs = [{"inst": "svc0", "type": rng.choice(TYPES), "server": h[0], "v4": list(h[1]), "v6": list(h[2]), "port": 80, "text": "",
+             "host_ttl": 120, "other_ttl": 4500}]
+    if rng.random() < 0.3:
+        svcs.append({"inst": "svc1", "type": rng.choice(TYPES), "server": "hostb.local.", "v4": ["0a000002"], "v6": [], "port": 81, "text": "",
+                     "host_ttl": 120, "other_ttl": 4500})
+    q = rng.choice([850, 1100, 1500, 2000, 2500]) + rng.randint(0, 30)
+    ops = [{"op": "register", "svc": i, "at": 0} for i in range(len(svcs))]
+    ops.append({"op": "query", "at": q, "svc": 0, "kind": rng.choice(["resolve", "resolve", "a+aaaa", "ptr+aaaa"]), "delay": 0})
+    if rng.random() < 0.7:
+        ops.append({"op": "query", "at": q + rng.choice([5, 10, 30]), "svc": 0, "kind": rng.choice(["ptr", "ptr+txt", "txt+srv"]), "delay": 0})
+    ops.append({"op": rng.choice(["unregister", "unregister", "unregister_all"]), "svc": 0, "at": q + rng.choice([1, 20, 50, 100, 240])})
+    return {"idx": idx, "svcs": svcs, "ops": ops, "seed": rng.randrange(1 << 30), "delays": [0] * 60,
+            "draws": [rng.choice([20, 21, 60]), rng.choice([60, 119, 120])] + [rng.choice([20, 60, 120]) for _ in range(6)]}
+
+
 def gen_scenario(rng, idx):
-    if rng.random() < 0.08:
+    r = rng.random()
+    if r < 0.08:
         return gen_overlap(rng, idx)
+    if r < 0.16:
+        return gen_nsec(rng, idx)
     nsvc = rng.choice([1, 1, 2, 2, 3])
     svcs = []
     for i in range(nsvc):
-        h = rng.choice(HOSTS[:2]) if rng.random() < 0.8 else HOSTS[2]
+        h = rng.choice([HOSTS[0], HOSTS[1], HOSTS[3]]) if rng.random() < 0.8 else HOSTS[2]
         svcs.append({"inst": "svc%d" % i, "type": rng.choice(TYPES), "server": h[0], "v4": list(h[1]), "v6": list(h[2]) if rng.random() < 0.8 else [],
                      "port": 80 + i, "text": rng.choice(["", "03613d31"]), "host_ttl": rng.choice([120, 120, 10, 4500]), "other_ttl": rng.choice([4500, 4500, 1125, 60])})
     ops = []
@@ -69,7 +92,10 @@ def gen_scenario(rng, idx):
     for _ in range(nq):
         at = rng.choice([360, 500, 700, 801, 900, 1100, 1500, 1790, 1801, 2500, 3000]) + rng.randint(0, 40)
         tgt = rng.randrange(nsvc)
-        kind = rng.choice(["ptr", "ptr", "ptr", "ptr+txt", "ptr+a", "qu", "srv", "a", "any", "txt+srv", "legacy"])
+        # "resolve" = what ServiceInfo.request() sends (SRV+TXT+A+AAAA); on a host without one address family the A/AAAA
+        # question of a multi-question query is answered by the NSEC record as an aggregated *answer*
+        kind = rng.choice(["ptr", "ptr", "ptr", "ptr+txt", "ptr+a", "qu", "srv", "a", "any", "txt+srv", "legacy",
+                           "resolve", "resolve", "a+aaaa", "ptr+aaaa", "aaaa"])
         ops.append({"op": "query", "at": at, "svc": tgt, "kind": kind, "delay": rng.choice([0, 0, 5, 50])})
         qtimes.append((at, tgt))
     # withdrawals
@@ -107,8 +133,13 @@ def build_query(sc, q, n):
         out.add_question(DNSQuestion(name, const._TYPE_TXT, cls))
     if k in ("srv", "txt+srv"):
         out.add_question(DNSQuestion(name, const._TYPE_SRV, cls))
-    if k in ("a", "ptr+a"):
+    if k == "resolve":
+        out.add_question(DNSQuestion(name, const._TYPE_SRV, cls))
+        out.add_question(DNSQuestion(name, const._TYPE_TXT, cls))
+    if k in ("a", "ptr+a", "resolve", "a+aaaa"):
         out.add_question(DNSQuestion(s["server"], const._TYPE_A, cls))
+    if k in ("aaaa", "ptr+aaaa", "resolve", "a+aaaa"):
+        out.add_question(DNSQuestion(s["server"], const._TYPE_AAAA, cls))
     if k == "any":
         out.add_question(DNSQuestion(name, const._TYPE_ANY, cls))
     return out.packets()[0]
